@@ -574,6 +574,7 @@ func (e *simEnv) checkCompleteness(res drive.Result, f *refmatch.Flow, js []judg
 	}
 	c := e.c
 	v := e.spec.V
+	e.checkUnread(res, f, tag)
 	hops := res.Run.Hops
 	first := int(e.spec.MinTTL)
 	sentAt := map[int]*refmatch.Probe{}
@@ -605,6 +606,46 @@ func (e *simEnv) checkCompleteness(res drive.Result, f *refmatch.Flow, js []judg
 			c.Violate("C02", "missed-reply/"+v.Name+"/"+j.d.Frame.Class, fmt.Sprintf("%s: hop %d empty although frame #%d (%s from %s) answers probe %d inside its window", tag, t, j.d.Frame.ID, j.d.Frame.Class, j.src, t),
 				map[string]any{"variant": v.Name, "result": fmtRun(res), "frames": fmtJudged(js)})
 		}
+	}
+}
+
+// checkUnread: a must-accept reply that was delivered to the handle more than one poll interval before the
+// end of the listening window but was never read cannot be reflected in the result (C02). The window is
+// computed by the harness from the parameters: first send + timeout + n*delay (parallel); the own window of
+// the last probe (serial, when no destination ended the run).
+func (e *simEnv) checkUnread(res drive.Result, f *refmatch.Flow, tag string) {
+	if len(f.Probes) == 0 || e.handle == nil {
+		return
+	}
+	v := e.spec.V
+	poll := e.spec.EffectivePoll()
+	if v.Serial {
+		// the serial engine reads one matching frame per TTL window and leaves the rest queued; what is still
+		// queued when it stops is not decided by the property (C02 restricts serial histories)
+		return
+	}
+	n := int(e.spec.MaxTTL) - int(e.spec.MinTTL) + 1
+	end := f.Probes[0].SentAt.Add(e.spec.Timeout + time.Duration(n)*e.spec.Delay - poll)
+	e.w.Lock()
+	var unread []*simnet.Delivery
+	for _, d := range e.w.Deliveries {
+		if d.Handle == e.handle.Idx && !d.Read && !d.Drained && !d.Filtered && d.At.Before(end) && d.At.After(f.Probes[0].SentAt) {
+			unread = append(unread, d)
+		}
+	}
+	e.w.Unlock()
+	for _, d := range unread {
+		// judge it as if it had been read at the end of the run
+		o := refmatch.Ref(f, d.Frame.Bytes, 1<<62)
+		if o.Kind != refmatch.Accept {
+			continue
+		}
+		idx := o.TTL - int(e.spec.MinTTL)
+		if idx < 0 || idx >= len(res.Run.Hops) {
+			continue // beyond the destination hop
+		}
+		e.c.Violate("C02", "reply-never-read/"+v.Name, fmt.Sprintf("%s: frame #%d (%s, answers probe %d) reached the capture handle %v before the end of the listening window but was never read", tag, d.Frame.ID, d.Frame.Class, o.TTL, end.Sub(d.At)+poll), fmtRun(res))
+		return
 	}
 }
 
